@@ -70,6 +70,17 @@ fn builtin_call(mut i: u64, thorough: bool) -> Option<String> {
     Some(format!("({} {})", f, args.join(" ")))
 }
 
+/// families of erroneous inputs repeated in the ladder cases (rotating within a family)
+pub const LADDERS: &[&[&str]] = &[
+    &["(let)", "(when)", "(cond)", "(case)", "(let* 1)", "(let ((a)) a)"],
+    &["(car 5)", "(undefined 1)", "(vector-ref (vector) 0)", "((lambda (a) a))", "(5 5)", "(/ 1 0)"],
+    &[")", "(", "\"abc", "#", "(a . )", "'", "1/", "#\\"],
+    &["(list (list (list (car 5))))", "(map car '(1 2))", "(let ((a 1)) (cond ((car a) 1)))", "(apply car '(1 2))", "(for-each (lambda (x) (when)) '(1))"],
+    &["(define-syntax)", "(define-syntax m)", "(define-syntax m (syntax-rules))", "(define-syntax m (syntax-rules () ((m a) a))) (m)", "(define-syntax m 5)", "(import (no such library))", "(define-library)"],
+    &["(vector-ref '#(1 2) 5)", "(display)", "(list-tail '(1) 3)", "(caddr '(1))", "(apply + 1)", "(max 'a)", "(string? 1 2)"],
+];
+pub const LADDER_LEN: usize = 400;
+
 pub const SANITY: &[(&str, &str)] = &[
     ("(let ((sanity-v (make-vector 3 7))) (if (< 2 (vector-length sanity-v)) (cddr (quote (1 2 3 4))) 0))", "(3 4)"),
     ("((lambda (sanity-k . sanity-r) (- sanity-k 1)) 43 0)", "42"),
@@ -311,6 +322,11 @@ impl Spaces {
                 bytes_cases.push((format!("{} {}", name, label), t.into_bytes(), kind));
             }
         }
+        // histories: many erroneous inputs in a row on ONE interpreter and thread, the sanity forms
+        // after every one of them, a new interpreter at the end
+        for k in 0..LADDERS.len() {
+            bytes_cases.push((format!("ladder of {} x {:?}", LADDER_LEN, LADDERS[k]), vec![k as u8], "ladder"));
+        }
         bytes_cases.push(("program path is a directory".into(), vec![], "eval_file-directory"));
         bytes_cases.push(("library path is a directory".into(), vec![], "file-import-directory"));
         bytes_cases.push(("program file missing".into(), vec![], "eval_file-missing"));
@@ -521,6 +537,28 @@ pub fn run_case(pooled: &mut Interp, c: &CaseInput) -> CaseOutcome {
             on_fresh_thread(move || {
                 let mut it = Interp::bare().unwrap();
                 let prog = dir.join("prog.scm");
+                if kind == "ladder" {
+                    let family = LADDERS[data[0] as usize];
+                    let mut it = match Interp::new() {
+                        Ok(it) => it,
+                        Err(p) => return CaseOutcome { class: "panic:construction".into(), detail: p.clone(), bad: Some(format!("PANIC constructing an interpreter: {}", p)) },
+                    };
+                    for k in 0..LADDER_LEN {
+                        let text = family[k % family.len()];
+                        let o = it.eval(text);
+                        let s = sanity(&mut it, text.contains("define-syntax"));
+                        let mut c = judge_outcome(&o, s);
+                        if let Some(b) = c.bad.take() {
+                            c.bad = Some(format!("[erroneous input no. {}: {}] {}", k + 1, text, b));
+                            return c;
+                        }
+                    }
+                    // other interpreters of the same thread: one made now must work
+                    return match Interp::new() {
+                        Ok(mut i2) => judge_outcome(&Outcome::Val(Obs::NoValue), sanity(&mut i2, false)),
+                        Err(p) => CaseOutcome { class: "panic:construction".into(), detail: p.clone(), bad: Some(format!("PANIC constructing an interpreter after the ladder: {}", p)) },
+                    };
+                }
                 let o = match kind {
                     "eval_file" => {
                         std::fs::write(&prog, &data).unwrap();
